@@ -493,14 +493,19 @@ Proof.
     apply (sizeB p2 Bp2); [right; now left|exact Hx|]. apply inE. right. apply in_or_app. now right. }
   assert (H1E : In (hd p1) (kbs (kids t))) by (apply inE; now left).
   assert (H2E : In (hd p2) (kbs (kids t))).
-  { rewrite EK, Ek. apply in_or_app. right. now left. }
+  { rewrite EK, Ek. right. apply in_or_app. right. now left. }
   assert (S0 : pkey (length (tipset t)) (keyE t (hd p1)) = nonleaf (hd p1) && nonleaf (hd p2)).
   { rewrite (pkey_entry t W B ND _ H1E), (entry_size t W B ND _ H1E).
     rewrite <- (entry_size t W B ND _ H2E). unfold hd at 2 3, clade. cbn [fst snd]. fold L1 L2.
     rewrite LE2, app_length. replace (length L1 + length L2 - length L1) with (length L2) by lia. reflexivity. }
   cbn [filter]. rewrite S0, !filter_app. cbn [filter].
-  destruct (nonleaf (hd p1)), (nonleaf (hd p2)); cbn [andb length]; rewrite !app_length; cbn [length];
-    rewrite ?app_length, S1, S2; lia.
+  assert (leafB : forall p, nonleaf (hd p) = false -> filter nonleaf (bsplits (snd p)) = []).
+  { intros p H. unfold nonleaf, hd in H. cbn [snd] in H. apply negb_false_iff in H.
+    unfold isleaf, kids in H. destruct (snd p) as [cn cc csl]. cbn [uslots] in H.
+    rewrite bsplits_unfold. destruct (kids_of csl); [reflexivity|discriminate]. }
+  destruct (nonleaf (hd p1)) eqn:N1, (nonleaf (hd p2)) eqn:N2; cbn [andb]; cbv iota;
+    repeat (rewrite ?app_length; cbn [length]); unfold key, central in *; rewrite S1, S2;
+    try (unfold B1; rewrite (leafB p1 N1)); try (unfold B2; rewrite (leafB p2 N2)); cbn [length]; lia.
 Qed.
 
 (** ** both cases *)
